@@ -60,6 +60,8 @@ def main(argv=None):
         if not os.environ.get('VF_NO_VARIANTS'):      # (only used to measure what round 11 added)
             variants.check(ctx, pid)
             extra11.run(ctx, pid)
+            from .checks import extra12
+            extra11.run(ctx, pid, extra12)
         rc = ctx.finish()
         print('%s %s tier=%s seed=%d states=%d transitions=%d replayed=%d validated=%d wall=%.1fs' % (
             pid, 'FAIL' if rc else 'ok', args.tier, seed, ctx.states, ctx.transitions,
